@@ -1,6 +1,10 @@
 package main
 
-import "fmt"
+import (
+	"encoding/hex"
+	"fmt"
+	"strings"
+)
 
 // ---- C01: response data is exactly what the request selected ---------------------------------------
 
@@ -30,6 +34,15 @@ func walkCase(o *Out, r *Rng, prop string, opts docOpts, mutate func(*Rng, *gSch
 	}
 	*w.calls = nil
 	res := safeResolve(root, d.text(), opName, d.vars)
+	obs := respTerm(res, *w.calls)
+	// the same request again on the same root and the same data graph: a read-only request must leave both as
+	// they were, so the answer is the same (the model is stateless; a difference is a mismatch)
+	*w.calls = nil
+	res2 := safeResolve(root, d.text(), opName, d.vars)
+	if obs2 := respTerm(res2, *w.calls); obs2.String() != obs.String() {
+		obs = N("rerun-differs", obs, obs2)
+		o.Count("rerun-differs")
+	}
 	o.Count(fmt.Sprintf("ops=%d", len(d.ops)))
 	o.Count(fmt.Sprintf("frags=%d", len(d.frags)))
 	if opts.collisions {
@@ -46,10 +59,70 @@ func walkCase(o *Out, r *Rng, prop string, opts docOpts, mutate func(*Rng, *gSch
 	}
 	o.Emit(Case{
 		Term:       N("walk", s.term(), g.term(), d.opsTerm(), S(opName), LS(d.vt), I(int64(qi))),
-		Obs:        respTerm(res, *w.calls),
+		Obs:        obs,
 		Meta:       map[string]interface{}{"schema": s.sdl(), "doc": d.text(), "op": opName, "vars": d.vars, "response": fmt.Sprint(res), "class": class},
 		Nontrivial: true,
 	})
+}
+
+// walkReuseCase parses one document once and resolves it several times, changing the data graph (lists
+// rotated, references re-drawn) and the supplied Boolean variables between the calls.  Each call is one
+// case for the stateless walk model with the graph and variables of that call: whatever the first call
+// leaves behind in the parsed request or in the data shows as a disagreement on a later call.
+func walkReuseCase(o *Out, r *Rng, opts docOpts, calls int) {
+	s := genSchema(r)
+	g := genGraph(r, s)
+	d := genDoc(r, s, opts)
+	root, w, qi := newWorld(s, g)
+	exe, err := root.ParseExecutableString(d.text())
+	if err != nil {
+		return
+	}
+	opName := ""
+	if len(d.ops) > 1 || d.ops[0].name != "" {
+		opName = d.ops[0].name
+	}
+	for k := 0; k < calls; k++ {
+		if k > 0 {
+			// change the data: rotate lists, re-draw some references among nodes of the same static position
+			for _, n := range g.nodes {
+				for _, fn := range n.order {
+					v := n.fields[fn].val
+					if v.kind == "list" && len(v.list) > 1 {
+						nv := &gDVal{kind: "list", list: append(append([]*gDVal{}, v.list[1:]...), v.list[0])}
+						n.fields[fn].val = nv
+					}
+				}
+			}
+			w.lists = nil
+			// flip the supplied Boolean variables
+			for i, vt := range d.vt {
+				name := string(mustUnhex(vt.Args[0].Atom))
+				if cur, ok := d.vars[name].(bool); ok {
+					d.vars[name] = !cur
+					d.vt[i] = N("v", S(name), B(!cur))
+				}
+			}
+		}
+		*w.calls = nil
+		vars := map[string]interface{}{}
+		for kk, vv := range d.vars {
+			vars[kk] = vv
+		}
+		res := safeResolveExe(root, exe, opName, vars)
+		o.Count("reuse-call")
+		o.Emit(Case{
+			Term:       N("walk", s.term(), g.term(), d.opsTerm(), S(opName), LS(append([]T{}, d.vt...)), I(int64(qi))),
+			Obs:        respTerm(res, *w.calls),
+			Meta:       map[string]interface{}{"schema": s.sdl(), "doc": d.text(), "op": opName, "vars": vars, "response": fmt.Sprint(res), "class": fmt.Sprintf("parsed-once call %d", k)},
+			Nontrivial: true,
+		})
+	}
+}
+
+func mustUnhex(a string) []byte {
+	b, _ := hex.DecodeString(strings.TrimPrefix(a, "x"))
+	return b
 }
 
 func init() {
@@ -61,6 +134,10 @@ func init() {
 		for i := 0; i < n; i++ {
 			r := rng.Fork()
 			walkCase(o, r, "C01", docOpts{collisions: r.Chance(30), abstract: r.Chance(35), maxDepth: 4, unknownOp: true}, nil)
+		}
+		for i := 0; i < n/10; i++ {
+			r := rng.Fork()
+			walkReuseCase(o, r, docOpts{collisions: false, abstract: r.Chance(35), maxDepth: 3}, 3)
 		}
 	}
 }
